@@ -392,6 +392,11 @@ func preludeD(w *lineWriter, m Mix) {
 	w.add("")
 	w.add("type WTw struct{ P }")
 	w.add("")
+	w.add("// WOut reaches T through two levels of embedding, the outer one by pointer.")
+	w.add("type WMid struct{ T }")
+	w.add("")
+	w.add("type WOut struct{ *WMid }")
+	w.add("")
 	w.add("// O is a plain struct holding T.")
 	w.add("type O struct {")
 	w.add("\tIn T")
@@ -400,7 +405,7 @@ func preludeD(w *lineWriter, m Mix) {
 	w.add("")
 	w.add("func GetP() *T { return nil }")
 	w.add("")
-	w.add("func Env() (x T, p *T, r *T, o O, op *O, arr []T, tw P, tp *P, y int, rn *N, x2 T2, u2 U2, gx GT[int], gp *GT[int], wt WT, wpt *WPT, wtw WTw) { return }")
+	w.add("func Env() (x T, p *T, r *T, o O, op *O, arr []T, tw P, tp *P, y int, rn *N, x2 T2, u2 U2, gx GT[int], gp *GT[int], wt WT, wpt *WPT, wtw WTw, wo WOut) { return }")
 	w.add("")
 }
 
@@ -519,6 +524,7 @@ func Render(s *Spec) *Rendered {
 			w.add("")
 		case SpPtrAlias:
 			w.add("type APT = *" + r.q + "T")
+			w.add("type APW = *" + r.q + "WPT // the operand through which T's promoted fields are written")
 			w.add("")
 		}
 	}
@@ -591,17 +597,24 @@ func (r *renderer) recvName() string {
 	return "T"
 }
 
+func (r *renderer) wptName() string {
+	if r.spec.Spell == SpPtrAlias {
+		return "APW"
+	}
+	return "*" + r.q + "WPT"
+}
+
 func (r *renderer) subst(stmt string) string {
 	r.ctr++
 	rep := strings.NewReplacer("{TL}", r.tLit, "{T}", r.tName, "{PT}", r.ptName, "{P}", r.pName, "{O}", r.oName, "{N}", r.nName,
-		"{GetP}", r.q+"GetP", "{Env}", r.q+"Env", "{T2}", r.q+"T2", "{U2}", r.q+"U2", "{GT}", r.q+"GT", "{NewGT}", r.q+"NewGT", "$v", fmt.Sprintf("v%d", r.ctr))
+		"{GetP}", r.q+"GetP", "{Env}", r.q+"Env", "{T2}", r.q+"T2", "{U2}", r.q+"U2", "{GT}", r.q+"GT", "{NewGT}", r.q+"NewGT", "{WT}", r.q+"WT", "$v", fmt.Sprintf("v%d", r.ctr))
 	return rep.Replace(stmt)
 }
 
 func (r *renderer) params(skip string) string {
 	all := []struct{ n, t string }{
 		{"x", r.tName}, {"p", r.ptName}, {"r", r.ptName}, {"o", r.oName}, {"op", "*" + r.oName},
-		{"arr", "[]" + r.tName}, {"tw", r.pName}, {"tp", "*" + r.pName}, {"y", "int"}, {"rn", "*" + r.nName}, {"x2", r.q + "T2"}, {"u2", r.q + "U2"}, {"gx", r.q + "GT[int]"}, {"gp", "*" + r.q + "GT[int]"}, {"wt", r.q + "WT"}, {"wpt", "*" + r.q + "WPT"}, {"wtw", r.q + "WTw"},
+		{"arr", "[]" + r.tName}, {"tw", r.pName}, {"tp", "*" + r.pName}, {"y", "int"}, {"rn", "*" + r.nName}, {"x2", r.q + "T2"}, {"u2", r.q + "U2"}, {"gx", r.q + "GT[int]"}, {"gp", "*" + r.q + "GT[int]"}, {"wt", r.q + "WT"}, {"wpt", r.wptName()}, {"wtw", r.q + "WTw"}, {"wo", r.q + "WOut"},
 	}
 	var parts []string
 	for _, a := range all {
@@ -651,8 +664,8 @@ func (r *renderer) block(w *lineWriter, pkgPath string, bi int, b Block) {
 		w.addf("func %s(%s) {", b.Encl.fixedName(), r.params(""))
 	case EInit:
 		w.add("func init() {")
-		w.add("\tx, p, r, o, op, arr, tw, tp, y, rn, x2, u2, gx, gp, wt, wpt, wtw := " + r.subst("{Env}") + "()")
-		w.add("\tuse(x, p, r, o, op, arr, tw, tp, y, rn, x2, u2, gx, gp, wt, wpt, wtw)")
+		w.add("\tx, p, r, o, op, arr, tw, tp, y, rn, x2, u2, gx, gp, wt, wpt, wtw, wo := " + r.subst("{Env}") + "()")
+		w.add("\tuse(x, p, r, o, op, arr, tw, tp, y, rn, x2, u2, gx, gp, wt, wpt, wtw, wo)")
 	case EMethTPtr:
 		w.addf("func (r *%s) m%d(%s) {", r.recvName(), bi, r.params("r"))
 	case EMethTVal:
